@@ -19,7 +19,8 @@ def main():
         out = {"outcome": "ok", "exc": "", "results": [snapshot(r) for r in res]}
     except Exception as e:  # noqa
         out = {"outcome": "raise", "exc": type(e).__name__, "results": []}
-    sys.stdout.write(json.dumps(out))
+    # (the library may print while it is imported: the result is the line after the marker)
+    sys.stdout.write("\n@@FRESH-RESULT@@" + json.dumps(out) + "\n")
 
 
 if __name__ == "__main__":
